@@ -1,10 +1,11 @@
 (* C12 -- getUrls / replaceUrls see every URL exactly once; URLs survive output.
    Property theorems only; proofs live in CssV.UrlsFacts and CssV.UrlQuoteFacts.
    Models: CssV.Urls (getUrls / replaceUrls over the rule tree, following /repo after the fix:
-   commits c79f051 and 92d0ff9), CssV.UrlQuote (helper.string / uri / urivalue, _uritokenvalue,
-   _stringtokenvalue over the constants regenerated into CssV.Gen.UrlQuote, following 57a5489),
+   commits c79f051 and 92d0ff9), CssV.UrlQuote (helper.uri / urivalue, _uritokenvalue over the
+   constants regenerated into CssV.Gen.UrlQuote, following 57a5489 and 3f41842) on top of C03's
+   CssV.Gen.Quote (helper.string / stringvalue / _stringtokenvalue, regenerated, following 546430b),
    CssV.Tokenizer (the shared tokenizer model, with the regenerated URI production).          *)
-From CssV Require Import Base Regex Tokenizer Urls UrlsFacts Gen.UrlQuote UrlQuote UrlQuoteFacts.
+From CssV Require Import Base Regex Tokenizer Urls UrlsFacts Quote Gen.Quote QuoteFacts Gen.UrlQuote UrlQuote UrlQuoteFacts.
 
 (* "getUrls yields every URL that occurs in a sheet - the href of each @import first, then each
    url() value of any declaration in style, @font-face, @page and margin rules at any nesting
@@ -79,39 +80,65 @@ Print Assumptions getUrls_pinned_refuted_nested.
 
 (* "Any URL string (spaces, quotes, parentheses, commas, semicolons, non-ASCII; no backslash or
    newline) ... is serialised so that re-parsing returns the identical string."
-   UrlChars is exactly that set: any code points but backslash, \n, \r, \f.
+   Proved for MORE than the property's set: every value helper.string can represent
+   (CssV.QuoteFacts.representable -- any code points, backslashes and \n \r \f included; the only
+   values excluded are those where a backslash run of odd length stands directly before a double
+   quote, or a backslash stands directly before \n, \r or \f: C03's open finding about
+   helper.string / stringvalue, see bs_value_not_representable there).
    survives v: for every text following helper.uri(v), in both tokenizer modes, the first token is
    the URI token at 1:1 whose raw text is helper.uri(v), and helper.urivalue (declaration values,
    via PreDef.uri) and _uritokenvalue (@import) both return v from its value.                  *)
-Theorem uri_bare : forall v, ~ In 92%N v -> forbidden v = false -> survives v.
+Theorem uri_bare : forall v, forbidden v = false -> survives v.
 Proof. exact uri_bare_lemma. Qed.
 Print Assumptions uri_bare.
 
-Theorem uri_quoted : forall v, UrlChars v -> forbidden v = true -> survives v.
+Theorem uri_quoted : forall v, representable v -> forbidden v = true -> survives v.
 Proof. exact uri_quoted_lemma. Qed.
 Print Assumptions uri_quoted.
 
-Theorem uri_roundtrip : forall v, UrlChars v -> survives v.
+Theorem uri_roundtrip : forall v, representable v -> survives v.
 Proof. exact uri_roundtrip_lemma. Qed.
 Print Assumptions uri_roundtrip.
 
-(* @import "...": helper.string and _stringtokenvalue / stringvalue are inverse on the same set *)
-Theorem import_string_roundtrip : forall v, UrlChars v ->
-  stringtokenvalue (hstring v) = Some v /\ stringvalue (hstring v) = Some v.
-Proof. exact string_value_roundtrip_lemma. Qed.
+(* the statement on exactly the property's set: any code points but backslash, \n, \r, \f *)
+Theorem uri_roundtrip_property_set : forall v, UrlChars v -> survives v.
+Proof. intros v H. apply uri_roundtrip_lemma, UrlChars_representable, H. Qed.
+Print Assumptions uri_roundtrip_property_set.
+
+(* a value containing a backslash is never written bare (57a5489 + 3f41842) *)
+Theorem backslash_forces_quotes : forall v, In 92%N v -> forbidden v = true.
+Proof. exact backslash_is_quoted. Qed.
+Print Assumptions backslash_forces_quotes.
+
+(* @import "...": helper.string followed by any text is read back as the STRING token whose
+   _stringtokenvalue is v (C03's theorem, on the same set) *)
+Theorem import_string_roundtrip : forall dc fs v follow, representable v ->
+  exists t, first_token dc fs (hstring v ++ follow) = Some t /\
+            ty t = s "STRING" /\ raw t = hstring v /\ line t = 1%nat /\ col t = 1%nat /\
+            stringtokenvalue (Some t) = Ok (Some v).
+Proof. exact string_roundtrip_lemma. Qed.
 Print Assumptions import_string_roundtrip.
 
-(* non-vacuity: awkward URLs are in UrlChars and come out as expected; a control character and DEL
-   are quoted (the pinned tree wrote them bare, and the bare form is not a URI token)            *)
+(* non-vacuity: awkward URLs are in the sets and come out as expected; a control character, DEL
+   and a backslash are quoted (the pinned tree wrote them bare, and the bare forms are not the URL) *)
 Example urlchars_awkward : UrlChars (s "a b'(c),;" ++ [34%N; 233%N; 1%N; 127%N; 8232%N]).
 Proof. intros c Hc. repeat (destruct Hc as [<-|Hc]; [repeat split; discriminate|]). destruct Hc. Qed.
+Example representable_backslashes :
+  representable (s "c:\dir\5c" ++ [10%N]) /\ representable [92%N] /\ representable [92%N; 92%N; 34%N] /\
+  ~ representable [92%N; 34%N] /\ ~ representable [92%N; 10%N].
+Proof. unfold representable. vm_compute. repeat split; discriminate. Qed.
 Example huri_examples :
   huri (s "a.png") = s "url(a.png)" /\
   huri (s "a b") = s "url(" ++ [34%N] ++ s "a b" ++ [34%N] ++ s ")" /\
   huri [1%N] = s "url(" ++ [34%N; 1%N; 34%N] ++ s ")" /\
-  huri [97%N; 34%N] = s "url(" ++ [34%N; 97%N; 92%N; 34%N; 34%N] ++ s ")".
+  huri [97%N; 34%N] = s "url(" ++ [34%N; 97%N; 92%N; 34%N; 34%N] ++ s ")" /\
+  huri [92%N] = s "url(" ++ [34%N; 92%N; 92%N; 34%N] ++ s ")" /\
+  huri (s "a\b") = s "url(" ++ [34%N] ++ s "a\5c b" ++ [34%N] ++ s ")".
 Proof. vm_compute. repeat split. Qed.
 Example bare_control_char_is_no_uri :
   option_map (fun ts => map ty ts) (tokenize true false (s "url(" ++ [1%N] ++ s ")"))
   <> Some [s "URI"].
 Proof. vm_compute. discriminate. Qed.
+Example bare_backslash_changes_the_url :
+  option_map (fun ts => map val ts) (tokenize true false (s "url(a\b)")) = Some [s "url(a" ++ [11%N] ++ s ")"].
+Proof. vm_compute. reflexivity. Qed.
